@@ -744,7 +744,7 @@ def main(argv):
             info = {"case": case, "observed": obs, "error_text": err, "failed_clauses": sorted(clauses), "origin": origin, "python": py,
                     "flavour": fl}
             if "ref-dev-subconfig-as-alg" in clauses:
-                rep.violation("sub-named-config:crash", "a component / method called config cannot be selected: AttributeError", info)
+                rep.violation("sub-named-config:rejected", "a component / method called config cannot be selected: its name is taken for the --config option's value and the parse is rejected", info)
                 continue
             if "ref-dev-cfgparam-as-alg" in clauses:
                 rep.violation("method-parameter-named-config:dropped", "the value of a method parameter called config is dropped by _run_component", info)
